@@ -24,7 +24,9 @@ SPEC = {
               "ServerStats": "(List Stats.Event)", "UdpSocket": "Gen.Sock", "Grease": "Gen.GreaseQ",
               "KmsProvider": "Envelope.Kms", "KmsError": "Unit", "ServerConfig": "Config.Cfg", "IpAddr": "Nat",
               "SmallRng": "Gen.Tape", "Bernoulli": "Nat", "Pathologies": "Gen.Pathology",
-              "StatsQueue": "(List (List Gen.ClientStats))", "Instant": "Unit"},
+              "StatsQueue": "(List (List Gen.ClientStats))", "Instant": "Unit",
+              "TcpListener": "Unit", "TcpStream": "Unit", "Poll": "Gen.Poll", "Events": "(List Nat)", "Token": "Nat", "Event": "Nat",
+              "Timer": "(List Rs.Time)", "Shutdown": "Unit"},
     # translated structs (fields of other types must be listed under skip_fields)
     "structs": {
         "RtMessage": {},
@@ -43,8 +45,11 @@ SPEC = {
         "OnlineKey": {},
         "LongTermKey": {},
         "Responder": {"skip_fields": ["thread_id", "long_term_public_key"]},
-        "Server": {"derive": "Inhabited", "skip_fields": ["health_listener", "poll_duration", "poll", "thread_name", "stats_pub_freq", "stats_pub_timer",
-                                   "stats_queue", "fake_client_socket"]},
+        # extra_fields: ghost state of the environment that has no Rust field of its own (see Gen/ServerExt.lean):
+        #   tcp            the health-check listener's accept queue and what happened to accepted connections
+        #   recorder_kind  which ServerStats implementation the Box holds (none = aggregated, some limit = per-client)
+        "Server": {"derive": "Inhabited", "skip_fields": ["fake_client_socket"],
+                   "extra_fields": [("tcp", "Gen.Tcp"), ("recorder_kind", "(Option Nat)")]},
     },
     "variants": {
         "Tag::*": "Tag.{v}",
@@ -54,6 +59,7 @@ SPEC = {
         "Pathologies::RandomlyOrderTags": "Gen.Pathology.randomlyOrderTags",
         "Pathologies::CorruptResponseSignature": "Gen.Pathology.corruptResponseSignature",
         "Version::RfcDraft13": "Version.ietf",
+        "Shutdown::Both": "()",
     },
     # calls that are not translated but mapped onto the hand model / prelude.
     #   lean: template ({self}, {0}, {1}…);  result: the Rust function returns Result;  monadic: template is a Res term
@@ -129,6 +135,23 @@ SPEC = {
         "ServerStats::add_classic_request": {"lean": "({self} ++ [({ kind := Stats.Kind.classicReq, addr := {0}, bytes := 0 } : Stats.Event)])", "mutates": True},
         "ServerStats::add_invalid_request": {"lean": "({self} ++ [({ kind := Stats.Kind.invalidReq, addr := {0}, bytes := 0 } : Stats.Event)])", "mutates": True},
         "Encoding::encode": {"lean": "(hexOf {0})"},
+        # process_events: mio Poll, the health-check listener (calls on the listener / an accepted stream act on the ghost
+        # field `tcp`), the statistics timer and queue
+        "Poll::poll": {"lean": "(Gen.Poll.poll {self})", "result": True, "mut_args": {"0": "({self}).ready"}},
+        "Event::token": {"lean": "{self}"},
+        "Token": {"lean": "{0}"},
+        "TcpListener::accept": {"recv_place": "self.tcp", "lean": "(Gen.Tcp.accept {self}).2", "res": "(Gen.Tcp.accept {self}).1", "mutates": True, "result": True},
+        "TcpStream::write_all": {"recv_place": "self.tcp", "lean": "(Gen.Tcp.writeAll {self} {0}).2", "res": "(Gen.Tcp.writeAll {self} {0}).1", "mutates": True, "result": True},
+        "TcpStream::shutdown": {"recv_place": "self.tcp", "lean": "(Gen.Tcp.shutdown {self}).2", "res": "(Gen.Tcp.shutdown {self}).1", "mutates": True, "result": True},
+        "ServerStats::iter": {"lean": "(Gen.statsIter self.recorder_kind {self})"},
+        "ServerStats::clear": {"lean": "([] : List Stats.Event)", "mutates": True},
+        "ServerStats::add_health_check": {"lean": "({self} ++ [({ kind := Stats.Kind.healthCheck, addr := {0}, bytes := 0 } : Stats.Event)])", "mutates": True},
+        "StatsQueue::force_push": {"lean": "({self} ++ [{0}])", "mutates": True},
+        "Timer::set_timeout": {"lean": "({self} ++ [{0}])", "mutates": True},
+        # the jitter (thread_rng) of the re-arm delay is not modelled: the delay is the base period
+        "Server::compute_delay": {"lean": "{0}"},
+        "Instant::elapsed": {"lean": "()"},
+        "Duration::from_millis": {"lean": "(⟨{0} / 1000, ({0} % 1000) * 1000000⟩ : Rs.Time)", "ret_rust": "Duration"},
         "StatsQueue::pop": {"lean": "({self}).tail", "res": "({self}).head?", "mutates": True},
         "Instant::now": {"lean": "()", "ret_rust": "Instant"},
         "Instant::duration_since": {"lean": "()"},
@@ -309,11 +332,13 @@ SPEC = {
         },
         "Server": {
             "file": "src/server.rs",
-            "imports": ["Message", "Merkle", "Online", "Responder", "Request"],
-            "lean_imports": ["Rough.Gen.ServerExt"],
+            "imports": ["Message", "Merkle", "Online", "Responder", "Request", "StatsCore"],
+            "lean_imports": ["Rough.Gen.ServerExt", "Rough.Gen.StatsExt"],
             "params": [("S", "SigScheme"), ("H", "Bytes → Bytes"), ("LOG", "Nat")],
             "log_param": "LOG",
-            "functions": {"Server::collect_requests": {}, "Server::service_socket": {}},
+            "functions": {"Server::collect_requests": {}, "Server::service_socket": {},
+                          "Server::handle_health_check": {"fuel": ["self.tcp.pending.length + 1"], "local_types": {"listener": "TcpListener", "stream": "TcpStream"}},
+                          "Server::thread_name": {}, "Server::send_client_stats": {}, "Server::process_events": {}},
         },
         "Client": {
             "file": "src/bin/roughenough-client.rs",
@@ -357,6 +382,8 @@ def emit_struct(crate, name, st, em_types):
     for fn, ft in st["fields"]:
         if fn in skip: continue
         lines.append(f"  {lname(fn)} : {em_types.lean_type(ft)}")
+    for fn, ft in crate.spec["structs"][name].get("extra_fields", []):
+        lines.append(f"  {fn} : {ft}")
     lines.append("  deriving " + crate.spec["structs"][name].get("derive", "Repr, DecidableEq, Inhabited"))
     return lines
 
